@@ -22,9 +22,8 @@ THEOREMS = [
     "Ebv.C09.members_disjoint", "Ebv.C09.member_py_prog_same_bytes", "Ebv.C09.py_prog_same_image",
     "Ebv.C09.dict_images_disjoint", "Ebv.C09.struct_roundtrip", "Ebv.C09.encStruct_inj",
     "Ebv.C09.key_ne", "Ebv.C09.hashvar_cells_independent", "Ebv.C09.hashvar_default",
-    "Ebv.C09.hashvar_py_to_prog", "Ebv.C09.hashvar_prog_to_py", "Ebv.C09.hashvar_fixed_refuted",
-    "Ebv.C09.refinement_partial", "Ebv.C09.iter_empty_refuted", "Ebv.C09.pop_deletes",
-    "Ebv.C09.lookup_absent_else", "Ebv.C09.lookup_present_found",
+    "Ebv.C09.hashvar_py_to_prog", "Ebv.C09.hashvar_prog_to_py", "Ebv.C09.hashvar_fixed_roundtrip",
+    "Ebv.C09.refinement", "Ebv.C09.pop_deletes", "Ebv.C09.lookup_absent_else", "Ebv.C09.lookup_present_found",
 ]
 TRUSTED = ["hand-written model Ebv.HashVars (Structure/Member layout, Dict stack offsets, both sides' member access, TheDict operations, hash "
            "variables), tied by exact correspondence of every observable (offsets, outcomes, values read on either side) with the real classes and "
@@ -35,7 +34,7 @@ ASSUMPTIONS = ["program-side operands fit the member / variable format (a store 
                "member formats b B h H i I q Q (Member('x') cannot be packed from Python at all); hash variable formats the same plus x",
                "Dict(lru=False); flags ANY/NOEXIST/EXIST; at most 255 hash variables (pack('B', ordinal))",
                "temporaries of the generated code stay below the Dict's key/value images on the stack (C04)"]
-RULE = ("declarations: 0..3 local variables before the Dict, 0..5 hash variables (formats bBhHiIqQ, 8% x; defaults at the format's edges), Key/Value with "
+RULE = ("declarations: 0..3 local variables before the Dict, 0..5 hash variables (formats bBhHiIqQ, 8% fixed-point x with |scaled value| < 2^45; defaults at the format's edges), Key/Value with "
         "1..5 packed members (5% deliberately unpacked -> AssembleError), capacity 1..6; 4..30 operations from both sides over a pool of 1..5 keys "
         "(python set/get/del/pop/iter, program update with ANY/NOEXIST/EXIST, lookup, modify-in-place, constant insert, hash variable get/set/add from "
         "both sides, reload); non-trivial = a value crossed from one side to the other")
@@ -45,6 +44,8 @@ SIGNED = "bhiqx"
 
 
 def rng_val(rng, f):
+    if f == "x":       # scaled fixed-point values small enough for value/FIXED_BASE to be an exact round trip in a float
+        return rng.choice([0, 1, -1, 150000, -250000, rng.randint(-(1 << 45), 1 << 45)])
     n = 8 if f == "x" else struct.calcsize(f)
     lo, hi = (-(1 << (8 * n - 1)), (1 << (8 * n - 1)) - 1) if f in SIGNED else (0, (1 << (8 * n)) - 1)
     return rng.choice([lo, hi, 0, 1, -1 if lo < 0 else 2, rng.randint(lo, hi), rng.randint(lo, hi)])
@@ -279,7 +280,7 @@ class Impl:
                 return "ok"
             if kind == "hv_py_get":
                 v = getattr(e, f"hv{o[1]}")
-                return f"value {v}"
+                return f"value {round(v * FIXED_BASE) if case['vars'][o[1]][0] == 'x' else v}"
             if kind == "hv_py_set":
                 setattr(e, f"hv{o[1]}", o[2] / FIXED_BASE if o[3] else o[2])
                 return "ok"
@@ -359,7 +360,7 @@ class Shadow:
             v = self.d.pop(k, None)
             return ("value " + show(v) if v is not None else "key-error"), None
         if kind == "py_iter":
-            return ("set", set(self.d)), (None if self.d else "iter-empty")
+            return ("set", set(self.d)), None
         if kind in ("pr_update", "pr_const"):
             k, v, fl = (tuple(case["const"]["k"]), tuple(case["const"]["v"]), 0) if kind == "pr_const" else (tuple(o[1]), tuple(o[2]), o[3])
             if (fl == 1 and k in self.d) or (fl == 2 and k not in self.d) or (k not in self.d and len(self.d) >= case["size"]):
@@ -378,12 +379,10 @@ class Shadow:
         # hash variables
         if kind == "hv_load":
             self.load()
-            if any(f == "x" and fl for f, d, fl in case["vars"]):
-                return "ok", "hashvar-fixed"
             return "ok", None
         i = o[1]
         f = case["vars"][i][0]
-        cls = "hashvar-fixed" if f == "x" else None
+        cls = None
         if kind == "hv_py_set":
             v = o[2]
             if f == "x":
@@ -402,8 +401,6 @@ class Shadow:
             return "ok", cls
         if self.hv[i] is None:
             return None, cls
-        if kind == "hv_py_get" and f == "x":
-            return f"value {self.hv[i] / FIXED_BASE}", cls
         return f"value {self.hv[i]}", cls
 
 
@@ -469,9 +466,8 @@ def run_case(ctx, case, real_kernel=False):
                         case, lres, "not-assembled")
         return outs, imp
     if ctx is not None and lres != "ok":
-        x = any(f == "x" and fl for f, d, fl in case["vars"])
         sh.tainted |= set(range(len(case["vars"])))
-        ctx.require(False, "load() raised", case, lres, "hashvar-fixed" if x else None)
+        ctx.require(False, "load() raised", case, lres, None)
     with (c10.emulated(K) if K is not None else _null()):
         for idx, o in enumerate(case["ops"]):
             got = imp.op(o)
@@ -502,8 +498,6 @@ def kernel_validation(ctx, cases):
     import errno
     done = same = 0
     for case in cases:
-        if any(f == "x" for f, d, fl in case["vars"]):
-            continue
         try:
             emu, _ = run_case(None, case)
             if emu == ["asm-error"]:
@@ -532,7 +526,7 @@ def kernel_validation(ctx, cases):
     ctx.extra["kernel_validation"] = {"sequences_on_real_kernel": done, "agree_with_emulation": same}
 
 
-KNOWN_CLASSES = ("hashvar-fixed", "iter-empty")     # findings/C09.json; only used to pick what is worth shrinking
+KNOWN_CLASSES = ()     # classes of known findings (none left: both were fixed in /repo); only used to pick what to shrink
 
 
 class _Collect:
@@ -615,12 +609,13 @@ LEVEL_TEXT = ("Lean 4 proofs over a hand-written model: Structure members occupy
               "string (induction over the member list); key and value images on the stack are disjoint; hash variables with distinct ordinals are "
               "independent 8-byte cells holding their default after load and carrying a value unchanged in both directions; every sequence of Python "
               "and program operations on a Dict (set/get/del/iteration, update with flags, lookup, modify in place) refines the abstract dictionary over "
-              "member tuples (induction over the operation list; pop deletes because the regenerated command is LOOKUP_AND_DELETE), absent keys take the "
-              "Else branch. Iteration of an empty Dict and fixed-point hash variables from Python are proven NOT to behave so (concrete witnesses; known "
-              "findings iter-empty, hashvar-fixed). Tie: exact correspondence of offsets and of every "
+              "member tuples with equal observations (full-strength refinement, induction over the operation list, empty-Dict iteration included; pop deletes "
+              "because the regenerated command is LOOKUP_AND_DELETE), absent keys take the Else branch; fixed-point hash variables carry the scaled value "
+              "in both directions. Tie: exact correspondence of offsets and of every "
               "outcome with the real classes and the real generated program run in the interpreter over an emulated kernel shared with the Python side.")
 LEVEL_NOTE = ("trusted: Lean kernel + standard axioms (one non-vacuity example uses decide +kernel); hand model validated by differential runs; hash-map "
               "helper semantics and the emulated kernel modelled (thorough tier validates them against the real kernel where bpf() works: real program "
-              "load + BPF_PROG_TEST_RUN); program operands assumed to fit the format; refinement is `_partial`: iterating an empty Dict is excluded")
+              "load + BPF_PROG_TEST_RUN); program operands assumed to fit the format; fixed-point values are compared as scaled integers (|scaled| < 2^45 so "
+              "that value/FIXED_BASE round-trips exactly through a float)")
 TECHNIQUE = "Lean 4 induction over member lists and operation lists (refinement to an abstract finite map) + differential correspondence through the real generated program"
 DESIGN_REF = "§4 C09"
